@@ -129,6 +129,32 @@ def binding_menu(out, expr, layouts, loop_ranks, quick):
             menu.append(("isS:%s" % r, [{"component": "IsS", "bindings": [{"rank": r}]}]))
             for L in holders:
                 menu.append(("isL:%s<%s" % (r, L), [{"component": "IsL", "bindings": [{"rank": r, "leader": L}]}]))
+    # one intersector component bound to two ranks at once
+    corank = []
+    for kind, fs, _ in expr["terms"]:
+        ins = [f[1] for f in fs if f[0] == "t"]
+        for r in loop_ranks:
+            if len([t for t in ins if r in layouts[(out, t)][1]]) >= 2 and r not in corank:
+                corank.append(r)
+    for r1, r2 in itertools.combinations(corank, 2):
+        for comp, lab in (("Is2", "is2"), ("IsS", "isS")):
+            menu.append(("%s:%s+%s" % (lab, r1, r2), [{"component": comp, "bindings": [{"rank": r1}, {"rank": r2}]}]))
+            menu.append(("%s:%s+%s" % (lab, r2, r1), [{"component": comp, "bindings": [{"rank": r2}, {"rank": r1}]}]))
+    # the same tensor rank buffered at two levels with different styles
+    for t in tensors:
+        lay = layouts[(out, t)][1]
+        if not lay:
+            continue
+        fn = format_name(layouts, out, t)
+        rank = lay[-1]
+        evs = [r for r in loop_ranks if r != rank][:1] or ["root"]
+        for s1, s2 in (("lazy", "eager"), ("eager", "lazy")):
+            t1 = ["coord", "payload"] if s1 == "lazy" else ["coord"]
+            t2 = ["coord", "payload"] if s2 == "lazy" else ["coord"]
+            menu.append(("buf2x:%s.%s/%s-%s" % (t, rank, s1, s2), [
+                {"component": "Mem", "bindings": mem_bindings(t, rank, ["coord", "payload"], fmt=fn)},
+                {"component": "Buf2", "bindings": mem_bindings(t, rank, t1, evict=evs[0], style=s1, fmt=fn)},
+                {"component": "Buf", "bindings": mem_bindings(t, rank, t2, evict=evs[0], style=s2, fmt=fn)}]))
     # sequencer over 1-2 loop ranks
     for n in (1, 2):
         for rs in itertools.combinations(loop_ranks, n):
@@ -174,8 +200,12 @@ def base_specs(quick):
         "partitioning": {"Z": {"K": ["uniform_shape(2)"]}}, "loop-order": {"Z": ["K1", "M", "N", "K0"]}}}, [{"K": 3, "M": 2, "N": 1}]))
     out.append(("mm/occ", {"decl": decl, "exprs": [mm], "mapping": {
         "partitioning": {"Z": {"K": ["uniform_occupancy(A.2)"]}}, "loop-order": {"Z": ["M", "K1", "N", "K0"]}}}, [{"K": 3, "M": 2, "N": 1}]))
+    dj = {"A": ["J", "K"], "B": ["K"], "C": ["J"], "Z": []}
+    out.append(("jk3", {"decl": dj, "exprs": [E("Z", [], times(T("A", "j", "k"), T("B", "k"), T("C", "j")))],
+                        "mapping": {"loop-order": {"Z": ["J", "K"]}}}, [{"J": 2, "K": 2}]))
     if not quick:
         out.append(("mm/MNK", {"decl": decl, "exprs": [mm], "mapping": {"loop-order": {"Z": ["M", "N", "K"]}}}, e1))
+    if True:
         out.append(("mm/flat", {"decl": decl, "exprs": [mm], "mapping": {
             "partitioning": {"Z": {"K": ["uniform_shape(2)"], "(M, K0)": ["flatten()"], "MK0": ["uniform_occupancy(A.2)"]}},
             "loop-order": {"Z": ["K1", "MK01", "N", "MK00"]}}}, [{"K": 3, "M": 2, "N": 1}]))
@@ -260,7 +290,7 @@ def configs(quick, maxb=None):
                     # a merger whose init-ranks mix ranks across a dynamic partitioning is accepted but emits a dump that reads
                     # a tensor variable that never exists (known finding F16): one specific instance is kept
                     continue
-                memkeys = [l.split(":")[1].split("@")[0] for l in labels if l.startswith(("buf:", "cache:"))]
+                memkeys = [l.split(":")[1].split("@")[0].split("/")[0] for l in labels if l.startswith(("buf:", "cache:", "buf2x:"))]
                 if len(memkeys) != len(set(memkeys)):
                     continue
                 if len({l.split(":")[0] for l in labels if l.startswith("is")}) > 1 and quick:
